@@ -5,7 +5,7 @@ import random
 import re
 import shutil
 
-from .. import core, harness, datadir, model, oracles, gen, strace
+from .. import core, harness, datadir, model, oracles, gen, strace, histories
 from ..chain import COINS, COIN_NAMES, Tx, TxIn, TxOut
 from ..core import viol, Inconclusive
 from ..gen import rbytes
@@ -328,8 +328,48 @@ def nohooks_case(spec):
     return {"evaluations": runs, "violations": v, "counters": {"runs": runs, "hooks_vs_nohooks_comparisons": 5}, "shapes": ["nohooks|%s" % coin]}
 
 
+def extreme_case(spec):
+    """Reruns over a directory whose figures leave the representable range (an address owning more than 2^64-1, a total volume past 2^64):
+    the statement of C13 has no exception for such data - whatever a build prints (a wrapped sum, an abort), it must print it on every
+    run and for every thread count. Only run-to-run equality is checked here, nothing is compared with the model."""
+    coin = spec["coin"]
+    rng = random.Random("C13x|%s|%s" % (spec["seed"], spec["n"]))
+    cb = gen.ChainBuilder(rng, coin)
+    owners = [histories.p2pkh_for(b"rich%d" % i) for i in range(4)]
+    for _ in range(6):
+        txs = []
+        for o in owners:
+            vals = [rng.choice([2**63, 2**63 + rng.randint(1, 10**6), 2**62 + rng.randint(0, 10**9), rng.randint(1, 10**12), 2**64 - 1 - rng.randint(0, 1000)])
+                    for _ in range(rng.randint(1, 3))]
+            txs.append(Tx(1, [TxIn(rbytes(rng, 32), rng.randint(0, 3), b"", 0xFFFFFFFF)], [TxOut(val, o) for val in vals] + [cb.out("p2pkh")], 0))
+        cb.add_block(txs=txs)
+    chain = cb.chain()
+    work = harness.fresh(os.path.join(spec["work"], "c%d" % spec["n"]))
+    d = os.path.join(work, "d")
+    datadir.write_datadir(d, COINS[coin], harness.simple_layout(chain))
+    v, counters = [], {"runs": 0, "extreme_value_runs": 0}
+    for profile in spec["profiles"]:
+        binary = core.build(profile)
+        for cbname in ("balances", "unspentcsvdump", "simplestats", "csvdump"):
+            seen = {}
+            for rep, threads in enumerate(spec["threads"]):
+                dump = harness.fresh(os.path.join(work, "o"))
+                p = core.run(harness.cli(binary, d, coin, cbname, dump), env={"RAYON_NUM_THREADS": str(threads)}, timeout=600)
+                if p.timed_out:
+                    raise Inconclusive("watchdog fired (extreme values, threads=%d)" % threads)
+                counters["runs"] += 1
+                counters["extreme_value_runs"] += 1
+                seen.setdefault((p.rc, digest_outputs(cbname, p, dump) if p.rc == 0 else None), []).append((rep, threads))
+            if len(seen) > 1:
+                v.append(viol("rerun:extreme-values", "%s (%s build) gives %d different results over %d runs of one directory whose per-address sums exceed 2^64-1: %s [coin=%s]" % (
+                    cbname, profile, len(seen), len(spec["threads"]), [(rc, (dg or "-")[:10], runs[:3]) for (rc, dg), runs in seen.items()][:4], coin)))
+    shutil.rmtree(work, ignore_errors=True)
+    return {"evaluations": counters["runs"], "violations": v, "counters": counters, "shapes": ["extreme|%s|%s" % (coin, "+".join(spec["profiles"]))],
+            "sample": {"kind": "extreme", "coin": coin, "threads": spec["threads"]}}
+
+
 def dispatch(spec):
-    return {"sched": sched_case, "history": history_case, "tsan": tsan_case, "nohooks": nohooks_case}[spec["case"]](spec)
+    return {"sched": sched_case, "history": history_case, "tsan": tsan_case, "nohooks": nohooks_case, "extreme": extreme_case}[spec["case"]](spec)
 
 
 def plan(chk):
@@ -356,6 +396,10 @@ def plan(chk):
         seq[1] = (cbs[i % 3], None, None)
         seq.append(seq[1])     # identical rerun
         specs.append(dict(case="history", coin=COIN_NAMES[n % 8], seed=chk.seed, n=n, sequence=seq, xor=(i % 2 == 0), trace=True))
+    for i in range(4 if chk.thorough else 1):
+        n += 1
+        specs.append(dict(case="extreme", coin=COIN_NAMES[(chk.seed + i * 3) % 8], seed=chk.seed, n=n, profiles=["release", "debug"] if i % 2 == 0 else ["release"],
+                          threads=[1, 2, 3, 8, 16, 64, 8, 2] if chk.thorough else [1, 2, 8, 16, 3, 8]))
     if chk.thorough:
         for i in range(3):
             n += 1
@@ -400,4 +444,4 @@ def main():
 
 
 def replay(spec):
-    core.replay_case("C13", {"sched": sched_case, "history": history_case, "tsan": tsan_case, "nohooks": nohooks_case}, spec)
+    core.replay_case("C13", {"sched": sched_case, "history": history_case, "tsan": tsan_case, "nohooks": nohooks_case, "extreme": extreme_case}, spec)
